@@ -140,6 +140,7 @@ func main() {
 	boot()
 	defer func() { n.Close() }()
 	var lastBase common.Hash
+	baseFailures := 0
 
 	for bi, beh := range behaviours {
 		w := &world{n: n, hash: map[int]common.Hash{}, id: map[common.Hash]int{}}
@@ -159,7 +160,16 @@ func main() {
 			}
 			m, err := n.MineOne(mininet.Prime)
 			if err != nil {
-				fatal(3, "base block:", err)
+				// a prime-order block on consistent heads (prime = region = zone head = the previous origin) is the simplest
+				// consistent block there is: the node refusing it is a wrong verdict, not a harness failure
+				baseFailures++
+				mism = append(mism, mismatch{Behaviour: bi, Step: -1, Kind: "verdict", Want: "ok", Got: classify(err), Detail: "origin block (prime order) on consistent heads: " + err.Error()})
+				if baseFailures >= 3 {
+					break
+				}
+				boot()
+				lastBase = common.Hash{}
+				continue
 			}
 			w.hash[0], w.id[m.Hash] = m.Hash, 0
 			lastBase = m.Hash
@@ -203,10 +213,17 @@ func main() {
 				fatal(3, "seal:", err)
 			}
 			var m *mininet.Mined
-			m, err = n.Assemble(ph)
-			if err == nil {
-				err = n.Insert(m)
-			}
+			func() {
+				defer func() {
+					if r := recover(); r != nil {
+						err = fmt.Errorf("panic: %v", r)
+					}
+				}()
+				m, err = n.Assemble(ph)
+				if err == nil {
+					err = n.Insert(m)
+				}
+			}()
 			got := classify(err)
 			want := s.Verdict
 			if want != "ok" {
